@@ -101,6 +101,7 @@ def cases(draw, tier):
         "twice": draw(st.booleans()),
         "redefine": draw(st.integers(0, 2)) == 0,
         "default_flags": draw(st.integers(0, 2)) == 0,
+        "bytearray": draw(st.integers(0, 3)) == 0,
     }
 
 
@@ -160,7 +161,13 @@ def run_case(case):
     ctx = xo.ContextCpu(omp_num_threads=2) if case["omp"] else xo.ContextCpu()
     if case["omp"]:
         labels.add("omp")
-    buf = ctx.new_buffer(case["cap"])
+    if case.get("bytearray"):
+        from xobjects.context_cpu import BufferByteArray
+
+        buf = BufferByteArray(capacity=case["cap"], context=ctx)  # the other buffer kind of the CPU context
+        labels.add("objects_in_bytearray_buffer")
+    else:
+        buf = ctx.new_buffer(case["cap"])
     if case["pre"]:
         buf.allocate(case["pre"])
     # ---- actual arguments
